@@ -68,14 +68,38 @@ Theorem hex_branch_only_for_zero_x : forall l R, lit_wf l = true ->
   render l = [48] /\ exists r bs R', R = (r, bs) :: R' /\ (r =? 120) || (r =? 88) = true.
 Proof. exact LiteralNum.hex_branch_lit. Qed.
 
-(* ... and there the clause FAILS: 0xA is one number token without a diagnostic and its value
-   is read as NaN *)
+(* ... and there the clause FAILS as worded: the literal 0 followed by the identifier
+   characters xA raises no diagnostic; 0xA is one number token.  It is not a silently wrong
+   number, though: its value is "10", read as exactly 10, the hexadecimal integer written *)
 Theorem ident_after_literal_rejected_refuted : exists l rest,
   lit_wf l = true /\
   (exists r bs R', decode_all rest = (r, bs) :: R' /\ is_ident_start r = true /\ r <> 95 /\ is_e r = false) /\
   let tok := fst (scan_one (decode_all (render l ++ rest)) 0) in
-  tk tok = KNumber /\ tdiags tok = [] /\ tend tok = 3 /\ dec_of_string (tval tok) = NaN.
+  tk tok = KNumber /\ tdiags tok = [] /\ tend tok = 3 /\ tval tok = [49; 48] /\
+  dec_of_string (tval tok) = Fin false 10 0.
 Proof. exact LiteralNum.ident_after_literal_rejected_refuted. Qed.
+
+(* the 0x / 0X forms are an extension beyond the four forms of the property text, and they
+   denote exactly the hexadecimal integer written (so never a silently different number):
+   "0x" or "0X", a non-empty run [hv] of hexadecimal digits of any length and either case,
+   followed by the end of the input or anything that is not a hexadecimal digit, is one number
+   token covering exactly that text, without diagnostics, whose value is the decimal spelling
+   of [hex_value] of the lower-cased digits and is read by the decimal library as exactly that
+   integer *)
+Theorem hex_literal_value : forall x hv rest pos,
+  (x =? 120) || (x =? 88) = true -> hv <> [] -> forallb is_hex_digit hv = true ->
+  hex_stop (decode_all rest) = true ->
+  exists tok,
+    scan_one (decode_all (48 :: x :: hv ++ rest)) pos = (tok, decode_all rest) /\
+    tk tok = KNumber /\ tdiags tok = [] /\
+    tpos tok = pos /\ tend tok = pos + 2 + blen hv /\
+    tval tok = dec_digits (hex_value (map hex_lower hv)) /\
+    dec_of_string (tval tok) = Fin false (hex_value (map hex_lower hv)) 0.
+Proof. exact LiteralNum.hex_literal_value. Qed.
+
+(* the decimal spelling used for the value of a hexadecimal literal is read back exactly *)
+Theorem dec_digits_spec : forall c, 0 <= c -> scan_digits (dec_digits c) 0 = Some c.
+Proof. exact LiteralNum.dec_digits_spec. Qed.
 
 (* "an exponent without digits is a syntax error": digits e [sign] followed by the end or by
    something that is neither a digit nor a separator *)
@@ -143,6 +167,8 @@ Print Assumptions leading_zeros_instance.
 Print Assumptions ident_after_literal_rejected_partial.
 Print Assumptions hex_branch_only_for_zero_x.
 Print Assumptions ident_after_literal_rejected_refuted.
+Print Assumptions hex_literal_value.
+Print Assumptions dec_digits_spec.
 Print Assumptions exponent_without_digits_rejected.
 Print Assumptions fragment_diags_iff.
 Print Assumptions misplaced_separator_rejected.
